@@ -41,6 +41,8 @@ enum Pert {
 	Fx(usize, u8),
 	/// two sounds on one node
 	TwoSounds(usize),
+	/// volume -6.02 dB AND an order-sensitive effect chain on the same target (effects act before the target's fader)
+	VolFx(usize, u8),
 	/// track 0 declares its route to send 0 twice (-6.02 dB, then -12 dB: the later declaration replaces the earlier);
 	/// after the first callback the route is closed with set_send
 	DupRoute,
@@ -66,6 +68,10 @@ fn perts(n: usize, nsends: usize) -> Vec<Pert> {
 			if t <= n + 1 {
 				v.push(Pert::Fx(t, f));
 			}
+		}
+		if t <= n + 1 {
+			v.push(Pert::VolFx(t, 1));
+			v.push(Pert::VolFx(t, 3));
 		}
 	}
 	for t in 0..n {
@@ -125,7 +131,7 @@ impl Check for C02 {
 		}
 	}
 	fn rule(&self) -> String {
-		"all 9 forests of <= 3 sub-tracks x internal buffer {1,2,3,4} x {0,1,2} send tracks (routes from track 0, and from the last track for 2 sends) x every subset of {main, tracks} carrying a probe sound x one perturbation at a time (volume -6.0206 / -60 dB on each track, main, send, route; all -6 dB; 2-chunk volume tween; a route declared twice then closed; three order-sensitive effect chains on each track, main, send; two sounds on one track) x 4 callback patterns from {1,3,4,7} frames; plus all histories to depth 3 (4 thorough) over 3 + 6 per track + 1 letters (add sound, drop handle, finish sound, pause, resume, tweened set_volume per track; tweened set_send; drop send handle) on fully populated forests; plus E2: all interleavings (preemption bound 2 / 3) of game(add send track; add track routed to it; play) with audio(3 callbacks). Every callback is compared with the reference sum; states = distinct (adopted, marked, removed, pause state) vectors of the model; non-trivial = scenes with at least two contributing sounds and non-silent output".into()
+		"all 9 forests of <= 3 sub-tracks x internal buffer {1,2,3,4} x {0,1,2} send tracks (routes from track 0, and from the last track for 2 sends) x every subset of {main, tracks} carrying a probe sound x one perturbation at a time (volume -6.0206 / -60 dB on each track, main, send, route; all -6 dB; 2-chunk volume tween; a route declared twice then closed; three order-sensitive effect chains on each track, main, send; the same with a -6 dB fader on that target; two sounds on one track) x 4 callback patterns from {1,3,4,7} frames; plus all histories to depth 3 (4 thorough) over 3 + 6 per track + 1 letters (add sound, drop handle, finish sound, pause, resume, tweened set_volume per track; tweened set_send; send-track volume to -60 dB / back to 0 dB; drop send handle) on fully populated forests; plus E2: all interleavings (preemption bound 2 / 3) of game(add send track; add track routed to it; play) with audio(3 callbacks). Every callback is compared with the reference sum; states = distinct (adopted, marked, removed, pause state) vectors of the model; non-trivial = scenes with at least two contributing sounds and non-silent output".into()
 	}
 	fn assumptions(&self) -> Vec<String> {
 		vec![
@@ -135,6 +141,9 @@ impl Check for C02 {
 	}
 	fn extra_evidence(&self, tier: Tier) -> Vec<(String, J)> {
 		vec![("history_depth".into(), J::u(tier.pick(3, 4)))]
+	}
+	fn case_timeout_ms(&self, tier: Tier) -> u64 {
+		tier.pick(120_000, 1_200_000)
 	}
 	fn run_case(&self, tier: Tier, idx: u64, ctx: &mut Ctx) {
 		if idx >= grid_cases() + HIST_CASES {
@@ -171,13 +180,14 @@ fn build(shape: usize, ibs: usize, nsends: usize, mask: u32, pert: Pert) -> Resu
 	let vol = |t: usize| -> f32 {
 		match pert {
 			Pert::Volume(pt, db) if pt == t => db,
+			Pert::VolFx(pt, _) if pt == t => -6.0206,
 			Pert::AllHalf => -6.0206,
 			_ => 0.0,
 		}
 	};
 	let fx = |t: usize| -> Vec<FxOp> {
 		match pert {
-			Pert::Fx(pt, v) if pt == t => fx_chain(v),
+			Pert::Fx(pt, v) | Pert::VolFx(pt, v) if pt == t => fx_chain(v),
 			_ => vec![],
 		}
 	};
@@ -295,6 +305,8 @@ fn letters(n: usize) -> Vec<String> {
 		v.push(format!("resume track {} (instant)", i));
 		v.push(format!("set_volume(track {}, -12 dB over 1 s = 8 frames)", i));
 	}
+	v.push("set_volume(send 0, -60 dB, instant)".to_string());
+	v.push("set_volume(send 0, 0 dB, instant)".to_string());
 	v.push("set_send(track 0 -> send 0, -60 dB over 1 s)".to_string());
 	v
 }
@@ -344,6 +356,8 @@ fn histories(tier: Tier, shape: usize, ibs: usize, ctx: &mut Ctx) {
 							w.set_node_route(0, 0, -60.0, 1.0);
 						}
 					}
+					l if l == ls.len() - 2 => w.set_send_volume(0, 0.0, 0.0),
+					l if l == ls.len() - 3 => w.set_send_volume(0, -60.0, 0.0),
 					_ => {
 						let i = (l - 3) / 6;
 						match (l - 3) % 6 {
@@ -501,6 +515,7 @@ fn e2_adoption(tier: Tier, which: u64, ctx: &mut Ctx) {
 		}
 	};
 	let stats = sched::explore(tier.pick(Some(2), Some(3)), 3_000_000, &mut body, &mut judge);
+	sched::report(ctx, &stats);
 	if let Some(e) = stats.error {
 		ctx.fail(format!("MACHINERY: scheduler error: {}", e), "");
 	}
